@@ -1,5 +1,5 @@
 SPECIFICATION SpecGen
-CONSTANT Deviations = {"CloseDoesNotReanalyse", "RenameTaintsCache", "StaleDiagnosticsForDroppedFile", "PrepareRenameSlicesPastEol", "SourceLinePastEof", "CompletionSplitsInsideChar", "DidChangeFirstEntryWins", "NonFileUriPanics"}
+CONSTANT Deviations = {"CloseDoesNotReanalyse", "RenameTaintsCache", "StaleDiagnosticsForDroppedFile", "PrepareRenameSlicesPastEol", "SourceLinePastEof", "CompletionSplitsInsideChar", "DidChangeFirstEntryWins", "NonFileUriPanics", "MalformedParamsPanic", "UnknownRequestNeverAnswered", "NonUtf8PathPanics", "WorkspaceSymbolRecursesImports", "SemanticTokenPastEndOfLine", "CodeLensOfImportedTests"}
 CONSTANT MaxHist = 3
 CONSTRAINT HistBound
 CONSTRAINT GenInit
